@@ -500,8 +500,8 @@ func domainC16(src []byte, xgo, gos Stream) string {
 	return ""
 }
 
-// C32: inputs built from lexemes both scanners have -- neither finds an ILLEGAL character, the XGo
-// scanner finds no keyword (TPL has none) and no prefixed string.
+// C32: inputs built from lexemes both scanners have -- the XGo scanner (the reference) finds no ILLEGAL
+// character, no keyword (TPL has none) and no prefixed string.
 func domainC32(src []byte, tpl, xgo Stream) string {
 	for _, t := range xgo.Toks {
 		switch {
@@ -513,11 +513,8 @@ func domainC32(src []byte, tpl, xgo Stream) string {
 			return "xgo-string-prefix"
 		}
 	}
-	for _, t := range tpl.Toks {
-		if t.Kind == "ILLEGAL" {
-			return "tpl-illegal-character"
-		}
-	}
+	// (the domain is decided by the reference alone: an ILLEGAL token of the scanner under test on an input
+	// the reference accepts is a divergence, not a reason to skip)
 	return ""
 }
 
